@@ -51,6 +51,9 @@ REQ_SETS = (
     ("GET", [(b"X-Secret", b"s3cret")], None),
     ("POST", [(b"X-Secret", b"s3cret"), (b"Accept", b"text/x")], b"SECRETBODY"),
     ("POST", [(b"Host", b"custom.host"), (b"X-Secret", b"s3cret")], b"SECRETBODY"),
+    # the end-to-end headers a client library typically sets by itself
+    ("GET", [(b"User-Agent", b"caller-agent/1.0"), (b"authorization", b"Bearer callertoken"), (b"Cookie", b"sid=callercookie"),
+             (b"X-Secret", b"s3cret")], None),
 )
 
 
@@ -61,7 +64,7 @@ REQ_SETS = (
     example=dict(auth=True, ph=2, rq=1, secure=True, port=1, st=0, sni=False),
     require=("C11:forwarded", "tunnelled", "connect-refused"),
     timeout={"quick": 300, "thorough": 600},
-    symbolic="credentials on/off; proxy header set (3, one colliding case-insensitively); request method/headers/body (3); origin scheme http/https; port default/other; CONNECT reply status from 8 values",
+    symbolic="credentials on/off; proxy header set (3, one colliding case-insensitively); request method/headers/body (4, incl. User-Agent/Authorization/Cookie); origin scheme http/https; port default/other; CONNECT reply status from 8 values",
     bounds="one request per run through an http:// or https:// proxy",
     outside="IPv6-literal origins (known finding under C19); proxy replies with bodies",
     stubs=("ProxyServer model: strict parse of what the client wrote; answers CONNECT with the scripted status",),
@@ -71,7 +74,7 @@ REQ_SETS = (
 )
 def http_proxy_hop(auth: bool, ph: int, rq: int, secure: bool, port: int, st: int, sni: bool) -> None:
     """
-    pre: 0 <= ph <= 2 and 0 <= rq <= 2 and 0 <= port <= 1 and 0 <= st <= 7
+    pre: 0 <= ph <= 2 and 0 <= rq <= 3 and 0 <= port <= 1 and 0 <= st <= 7
     post: _
     """
     is_async = shard("flavour", "sync") == "async"
@@ -166,6 +169,15 @@ def _http_proxy_hop(is_async: bool, px: str, pheaders: list, method: str, rheade
         P.check((k, v) in creq.headers, "proxy-headers-on-connect", lambda: f"proxy:tunnel:missing:{k!r}")
     P.check(not any(v == b"s3cret" for _, v in creq.headers) and not any(k == b"Accept" and v == b"text/x" for k, v in creq.headers),
             "callers-headers-not-in-connect", "proxy:tunnel:caller-header-leaked")
+    conf_l = {(k.lower(), v) for k, v in configured}
+    for k, v in rheaders:
+        # nothing the caller addressed to the origin is disclosed to the proxy (by name+value or by value alone)
+        P.check(((k.lower(), v) in conf_l) or not any(ck.lower() == k.lower() and cv == v or (cv == v and len(v) > 4) for ck, cv in creq.headers),
+                "callers-headers-not-in-connect", lambda: f"proxy:tunnel:caller-header-leaked:{k.lower()!r}")
+    # ... and the CONNECT carries nothing but Host, the library's own defaults and what was configured on the proxy
+    allowed = {b"host", b"accept"} | {k.lower() for k, _ in configured}
+    extra = sorted(k.lower() for k, _ in creq.headers if k.lower() not in allowed)
+    P.check(not extra, "connect-carries-only-host-defaults-and-proxy-headers", lambda: f"proxy:tunnel:extra-connect-headers:{extra!r}")
     P.check(creq.body == b"" and b"SECRETBODY" not in pr.raw[: len(creq.raw_head) + 16], "callers-body-not-in-connect",
             "proxy:tunnel:body-leaked")
     connect_bytes = len(creq.raw_head)
